@@ -85,6 +85,13 @@ class ProfEnv:
                            capture_output=True, text=True, timeout=600)
         if r.returncode != 0:
             return "the profiler does not build: " + (r.stdout + r.stderr)[-2000:]
+        # the same sources without cgo: os/user then takes the home directory of an unknown uid from $HOME, which lets a
+        # scenario give the profiler a cache directory of its own (c17_full_cache_fs)
+        self.profiler_nocgo = os.path.join(self.root, "seccomp-profiler-nocgo")
+        r = subprocess.run(["go", "build", "-o", self.profiler_nocgo, "./cmd/seccomp-profiler"], cwd=REPO, env=dict(GOENV, CGO_ENABLED="0"),
+                           capture_output=True, text=True, timeout=600)
+        if r.returncode != 0:
+            return "the profiler does not build with CGO_ENABLED=0: " + (r.stdout + r.stderr)[-2000:]
         self.targets = {}
         for variant in ("v1", "v2"):
             d = os.path.join(self.root, "target-" + variant)
@@ -564,6 +571,56 @@ def c17_run_history(env, hist, an, L):
     return dict(pid=pid, hline=hline, obs=obs, reuse=reuse, hist=hist, arch=an, h1=h1, listing=listing, cold=L["cold3"] if small else L["cold"], colds=colds)
 
 
+def c17_full_cache_fs(ctx, env, listing_path, listing_len, size_kib, tmp_elsewhere):
+    """The cache directory lies on a file system that is too small for the disassembly (a tmpfs of size_kib KiB mounted for
+    the occasion; needs the privilege to mount - returns None if it cannot), optionally with $TMPDIR on another file
+    system. Three runs: on the full file system, again, and after the file system was enlarged. Every run that ends with
+    status 0 must print the cold-cache profile. The profiler runs as an unknown uid so that $HOME decides where its cache
+    lies (its own HOME for this scenario: nothing else uses that cache)."""
+    uid = 54321
+    d = env.new_case_dir()
+    q = d
+    while q.startswith(env.ctx.scratch) and len(q) >= len(env.ctx.scratch):
+        os.chmod(q, 0o755)
+        q = os.path.dirname(q)
+    os.chmod(env.profiler_nocgo, 0o755)
+    home, home0, tmp = os.path.join(d, "home"), os.path.join(d, "home0"), os.path.join(d, "tmp")
+    cache = os.path.join(home, ".seccomp-profiler")
+    for x in (home, home0, tmp, cache):
+        os.makedirs(x, exist_ok=True)
+        os.chown(x, uid, uid)
+    binpath, _h = env.place(d, "X86_64", "v1", base="fullfs")
+    os.chmod(binpath, 0o755)
+
+    def run(h, tmpdir=None):
+        e = dict(os.environ, HOME=h, USER="verif", LOGNAME="verif", PATH=env.fake + ":/usr/bin:/bin", FAKE_LISTING=listing_path, FAKE_MODE="ok", FAKE_K="", FAKE_MARK=os.path.join(d, "mark"))
+        if tmpdir:
+            e["TMPDIR"] = tmpdir
+        with env.lock:
+            env.executions += 1
+        r = subprocess.run([env.profiler_nocgo, "-format", "config", binpath], env=e, capture_output=True, timeout=120, user=uid, group=uid, extra_groups=[])
+        return dict(rc=r.returncode, stdout=r.stdout.decode("utf-8", "replace"), stderr=r.stderr.decode("utf-8", "replace")[-400:])
+    cold = run(home0)
+    if cold["rc"] != 0 or "names:" not in cold["stdout"]:
+        raise RuntimeError("cold run as uid %d failed: %s" % (uid, cold["stderr"]))
+    m = subprocess.run(["mount", "-t", "tmpfs", "-o", "size=%dk,mode=0777" % size_kib, "tmpfs", cache], capture_output=True, text=True)
+    if m.returncode != 0:
+        return None
+    runs = []
+    try:
+        t = tmp if tmp_elsewhere else None
+        runs.append(("cache file system of %d KiB, disassembly of %d bytes" % (size_kib, listing_len), run(home, t)))
+        runs.append(("again", run(home, t)))
+        listing_files = sorted("%s:%d" % (fn, os.path.getsize(os.path.join(cache, fn))) for fn in os.listdir(cache))
+        subprocess.run(["mount", "-o", "remount,size=4m", cache], capture_output=True)
+        runs.append(("after the file system was enlarged to 4 MiB", run(home, t)))
+    finally:
+        subprocess.run(["umount", "-l", cache], capture_output=True)
+    bad = [(what, r) for (what, r) in runs if r["rc"] == 0 and r["stdout"] != cold["stdout"]]
+    return dict(runs=[(w, r["rc"]) for (w, r) in runs], bad=bad, cold=cold["stdout"], files_when_full=listing_files,
+                scenario=dict(size_kib=size_kib, tmp_elsewhere=tmp_elsewhere, listing_len=listing_len))
+
+
 def check_C17(ctx, replay=None):
     rng = random.Random((replay or {}).get("seed", ctx.seed) * 1000003 + 17)
     env = setup_common(ctx, "C17.v", C17_THEOREMS, need_gen=False)
@@ -625,6 +682,8 @@ def _c17_body(ctx, env, rng, replay):
             rewrite_with_replay_cmd(ctx, p)
     if replay and replay.get("history"):
         plan = [(replay["arch"], replay["history"])]
+    elif replay and replay.get("scenario"):
+        plan = []
     else:
         plan = []
         for an in arch_plan:
@@ -728,10 +787,36 @@ def _c17_body(ctx, env, rng, replay):
         if len(samples) < 3 and hist["first"]:
             samples.append(dict(arch=an, history=hist, steps=[dict(step=o["step"], rc=o["rc"], files=o["files"], cached=o["cached"]) for o in res["obs"]],
                                 final_profile_equals_cold=(last["stdout"] == cold["stdout"])))
+    # the cache directory on a file system that is too small for the disassembly (needs the privilege to mount a tmpfs;
+    # recorded as skipped otherwise)
+    fullfs = []
+    if not (replay and replay.get("history")):
+        L = listings["X86_64"]
+        combos = [(8, True), (8, False), (4, True), (12, True)] if ctx.tier == "quick" else [(k, t) for k in (4, 8, 12, 16) for t in (True, False)]
+        if replay and replay.get("scenario"):
+            combos = [(replay["scenario"]["size_kib"], replay["scenario"]["tmp_elsewhere"])]
+        for (kib, elsewhere) in combos:
+            if kib * 1024 >= len(L["text"]) + 65:
+                continue        # the disassembly would fit
+            res = c17_full_cache_fs(ctx, env, L["p1"], len(L["text"]), kib, elsewhere)
+            if res is None:
+                fullfs.append("skipped: mounting a tmpfs is not permitted here")
+                break
+            fullfs.append(dict(scenario=res["scenario"], exit_status_of_runs=res["runs"], files_when_full=res["files_when_full"]))
+            if res["bad"]:
+                nbad += 1
+                what, r = res["bad"][0]
+                p = ctx.violation("counterexample", dict(
+                    what="C17: with the cache directory on a file system too small for the disassembly, the run '%s' ended with status 0 and printed a profile that is not the cold-cache profile" % what,
+                    scenario=res["scenario"], exit_status_of_runs=res["runs"], files_in_the_cache_when_full=res["files_when_full"],
+                    expected_profile=res["cold"][:1500], actual_profile=r["stdout"][:1500]), True)
+                rewrite_with_replay_cmd(ctx, p)
+                break
     reused = sum(1 for res in results if res["reuse"]["cached"] and res["arch"] != "ARM")
+    ctx.coverage["full_cache_file_system"] = fullfs
     ctx.coverage.update(dict(
         evaluations=env.executions, histories=len(results), distinct_nontrivial=len(nontrivial),
-        rule="histories of the real seccomp-profiler binary (fake `go tool objdump` on PATH emitting a synthetic listing of 9-13 KB with syscall sites up to its last line): first runs cut by SIGKILL after the tool wrote k bytes, tool exiting non-zero after k bytes, tool dying from SIGKILL / SIGTERM / SIGSEGV / SIGABRT after k bytes, $TMPDIR on another file system than the cache, the binary replaced and then a run without a working tool, tool missing, tool present on PATH but not startable (missing interpreter, no executable format, empty file), binaries whose file name has 200/229 bytes (temporary name fits NAME_MAX) and 239/244 bytes (only the final name fits: every run must fail), write failing at a file size limit (RLIMIT_FSIZE), the binary replaced by another one (with a shorter listing) at the same path - in the middle of a history and before the closing normal run -, planted temporary files with every class of prefix, planted final files that are not for this binary; k and limits around 0, 64/65, 4031 (=4096-65), multiples of 4096, the end; then a normal run whose profile is compared with a cold-cache run and whose cache directory after every step is compared with the extracted model (names modulo the random suffix); non-trivial = distinct history whose first part left a file behind, failed, or started from planted files",
+        rule="histories of the real seccomp-profiler binary (fake `go tool objdump` on PATH emitting a synthetic listing of 9-13 KB with syscall sites up to its last line): first runs cut by SIGKILL after the tool wrote k bytes, tool exiting non-zero after k bytes, tool dying from SIGKILL / SIGTERM / SIGSEGV / SIGABRT after k bytes, $TMPDIR on another file system than the cache, the binary replaced and then a run without a working tool, the cache directory on a tmpfs of 4..16 KiB that cannot hold the disassembly (with and without $TMPDIR elsewhere; three runs: full, again, enlarged), tool missing, tool present on PATH but not startable (missing interpreter, no executable format, empty file), binaries whose file name has 200/229 bytes (temporary name fits NAME_MAX) and 239/244 bytes (only the final name fits: every run must fail), write failing at a file size limit (RLIMIT_FSIZE), the binary replaced by another one (with a shorter listing) at the same path - in the middle of a history and before the closing normal run -, planted temporary files with every class of prefix, planted final files that are not for this binary; k and limits around 0, 64/65, 4031 (=4096-65), multiples of 4096, the end; then a normal run whose profile is compared with a cold-cache run and whose cache directory after every step is compared with the extracted model (names modulo the random suffix); non-trivial = distinct history whose first part left a file behind, failed, or started from planted files",
         traces_validated_against_impl=ncorr, counterexamples=nbad, cache_reused_without_tool=reused,
         input_distribution=dict(step_kinds=dist, arches={an: sum(1 for r in results if r["arch"] == an) for an in arch_plan}),
         samples=samples))
